@@ -48,13 +48,16 @@ CommandSignature ShellCommand::getSignature() const {
   if (!signatureData.empty()) {
     code = code.combine(signatureData);
   } else {
+    code = code.combine(uint64_t(args.size()));
     for (const auto& arg: args) {
       code = code.combine(arg);
     }
+    code = code.combine(uint64_t(env.size()));
     for (const auto& entry: env) {
       code = code.combine(entry.first);
       code = code.combine(entry.second);
     }
+    code = code.combine(uint64_t(depsPaths.size()));
     for (const auto& path: depsPaths) {
       code = code.combine(path);
     }
